@@ -161,4 +161,14 @@ CLAIMED["C01"] = {
     "technique": "Coq proof of scanner totality over a regenerated Gallina scanner + exhaustive edit enumeration on the parser",
 }
 
+CLAIMED["C08"] = {
+    "text": ("Theorems in coq/Props/C08.v: for EVERY string the quoted, escaped text scans back - through the scanner step regenerated from Lexer.scan on every "
+             "run - to one string token holding exactly the original characters (induction over the string, no bound); equal sets and equal maps render "
+             "identically whatever their internal order (for every rendering of decimals); an int numeral has the int as its value. The parser/evaluator half "
+             "of the round trip, the numeral shapes and the host's decimal repr are decided on the implementation over the property's quantifier "
+             "(generated data values to depth 3, adversarial strings, all magnitudes, every insertion order <= 5) - C08_round_trip_partial."),
+    "note": _LEX + " Hand model Model/Render.v of the __repr__ methods tied by a vm_compute correspondence (sampling).",
+    "technique": "Coq proof over a regenerated Gallina scanner and a hand render model + correspondence and round-trip enumeration on the interpreter",
+}
+
 NOT_APPLICABLE = {}
